@@ -240,6 +240,9 @@ pub enum Corrupt {
     /// key with one bit flipped AND a degenerate signature (0: R = neutral element, S = 0; 1: all zero; 2: honest R, S = 0;
     /// 3: R = the corrupted key bytes, S = 0): when the key does not decode nothing may be accepted under it
     KeyBitSpecialSig(u16, u8),
+    /// the genuine signature with S replaced by S + L (L = the group order): the same point equation holds, but RFC 8032
+    /// requires 0 <= S < L — a direct Ed25519 verification (ring; ed25519-dalek as shipped) rejects it
+    SPlusL,
 }
 
 #[derive(Debug, Clone, Serialize, Deserialize)]
@@ -292,6 +295,19 @@ pub fn check_verify(ctx: &mut Ctx, c: &VerifyCase) -> Res {
             }
             sig = special;
         }
+        Corrupt::SPlusL => {
+            // little-endian addition of L = 2^252 + 27742317777372353535851937790883648493
+            const L: [u8; 32] = [0xed, 0xd3, 0xf5, 0x5c, 0x1a, 0x63, 0x12, 0x58, 0xd6, 0x9c, 0xf7, 0xa2, 0xde, 0xf9, 0xde, 0x14, 0, 0, 0, 0, 0, 0, 0, 0, 0, 0, 0, 0, 0, 0, 0, 0x10];
+            let mut carry = 0u16;
+            for i in 0..32 {
+                let v = sig[32 + i] as u16 + L[i] as u16 + carry;
+                sig[32 + i] = v as u8;
+                carry = v >> 8;
+            }
+            if carry != 0 {
+                return Ok(()); // S + L does not fit 256 bits for this signature
+            }
+        }
         Corrupt::OtherKey => {
             let mut s2 = seed;
             s2[0] ^= 1;
@@ -306,6 +322,16 @@ pub fn check_verify(ctx: &mut Ctx, c: &VerifyCase) -> Res {
         vk.verify(&msg, &s).map_err(|_| ())
     })()
     .is_ok();
+    // S + L: the verdict is the RFC's (reject), confirmed by ring — not whatever the ed25519-dalek build linked here
+    // says (cargo feature unification gives the harness the same dalek build as the product)
+    let direct = if matches!(c.corrupt, Corrupt::SPlusL) {
+        if refcrypto::verify(&pk, &msg, &sig) {
+            return Err(viol("oracle-disagreement", "ring accepts S + L"));
+        }
+        false
+    } else {
+        direct
+    };
     // a panic anywhere in the incremental verifier counts as "reject"
     let got = no_unwind(|| {
         let mut v = MsgVerifier::new(&pk);
@@ -334,6 +360,7 @@ pub fn check_verify(ctx: &mut Ctx, c: &VerifyCase) -> Res {
         Corrupt::SigLen(_) => "sig-len",
         Corrupt::OtherKey => "other-key",
         Corrupt::KeyBitSpecialSig(..) => "key-bit+degenerate-signature",
+        Corrupt::SPlusL => "s-plus-group-order",
     };
     ctx.class(&format!("verify:{}:{}", kind, if direct { "accepted" } else { "rejected" }));
     if !matches!(c.corrupt, Corrupt::None) {
@@ -353,6 +380,7 @@ fn check_triple_all_bits(ctx: &mut Ctx, t: &Triple) -> Res {
     let mk = |corrupt| VerifyCase { seed: t.seed.clone(), chunks: t.chunks.clone(), corrupt };
     check_verify(ctx, &mk(Corrupt::None))?;
     check_verify(ctx, &mk(Corrupt::OtherKey))?;
+    check_verify(ctx, &mk(Corrupt::SPlusL))?;
     for b in 0..512u16 {
         check_verify(ctx, &mk(Corrupt::SigBit(b)))?;
     }
@@ -379,12 +407,32 @@ fn check_triple_all_bits(ctx: &mut Ctx, t: &Triple) -> Res {
 }
 
 pub fn run(ctx: &mut Ctx) -> Vec<Violation> {
+    // every second worker process runs with logging switched on at Trace (log arguments are only evaluated then);
+    // records are formatted and dropped
+    if ctx.shard % 2 == 1 {
+        crate::srvlab::install_logger(log::LevelFilter::Trace);
+        *crate::srvlab::LOGGER.keep.lock().unwrap() = false;
+        ctx.class("logging-on-at-trace");
+    }
     let mut out = vec![];
     let t = ctx.tier;
     out.extend(run_prop(ctx, "history", t.pick(12_000, 240_000), 1000, history(), |ctx, c| {
         ctx.sample("history", 2, c);
         check_history(ctx, c)
     }));
+    // long lives of one signer: hundreds of small messages, with large many-chunk messages placed around the
+    // 128th/256th/512th signature (counters that wrap)
+    let long = (seed32(), 0u8..6, proptest::collection::vec(bytes(300usize..=700), 3..=6), 0u8..4).prop_map(|(seed, which, big, jitter)| {
+        let at = [127usize, 255, 256, 511, 512, 300][which as usize % 6] + jitter as usize % 2;
+        let mut msgs: Vec<Vec<Hex>> = (0..at + 3).map(|k| vec![Hex(vec![k as u8; k % 5])]).collect();
+        for d in 0..3usize {
+            if at >= 1 + d {
+                msgs[at - 1 + d] = big.clone();
+            }
+        }
+        SignHistory { seed, msgs }
+    });
+    out.extend(run_prop(ctx, "long-history", t.pick(96, 960), 20, long, |ctx, c| check_history(ctx, c)));
     out.extend(run_prop(ctx, "multi-object", t.pick(20_000, 400_000), 1000, multi_ops(), |ctx, ops| {
         ctx.sample("multi-object", 1, ops);
         check_multi(ctx, ops)
@@ -401,14 +449,17 @@ pub fn run(ctx: &mut Ctx) -> Vec<Violation> {
         1 => any::<u8>().prop_map(Corrupt::SigLen),
         1 => Just(Corrupt::OtherKey),
         1 => (any::<u16>(), 0u8..4).prop_map(|(b, k)| Corrupt::KeyBitSpecialSig(b, k)),
+        1 => Just(Corrupt::SPlusL),
     ];
     out.extend(run_prop(ctx, "verify", t.pick(40_000, 800_000), 1000, (seed32(), chunks(), corrupt).prop_map(|(seed, chunks, corrupt)| VerifyCase { seed, chunks, corrupt }), |ctx, c| check_verify(ctx, c)));
     out
 }
 
 pub fn replay(ctx: &mut Ctx, sub: &str, case: &Value) -> Res {
+    crate::srvlab::install_logger(log::LevelFilter::Trace);
+    *crate::srvlab::LOGGER.keep.lock().unwrap() = false;
     match sub {
-        "history" => replay_case::<SignHistory, _>(ctx, case, |ctx, c| check_history(ctx, c)),
+        "history" | "long-history" => replay_case::<SignHistory, _>(ctx, case, |ctx, c| check_history(ctx, c)),
         "multi-object" => replay_case::<Vec<MultiOp>, _>(ctx, case, |ctx, c| check_multi(ctx, c)),
         "triple-all-bits" => replay_case::<Triple, _>(ctx, case, |ctx, c| check_triple_all_bits(ctx, c)),
         "verify" => replay_case::<VerifyCase, _>(ctx, case, |ctx, c| check_verify(ctx, c)),
